@@ -791,7 +791,10 @@ def _run_mode(spec, rec, mode, M, paths, real, srv, gcls):
                 except KeyError:
                     return None
             ok2, arr = guarded(read, "ds[feat]")
-            got[fnum] = (ok1, cont, ok2, arr)
+            # the same feature once more: a basin that was refused (or whose check
+            # raised) at the first access must not be used at the second
+            ok3, arr2 = guarded(read, "ds[feat] (second read)") if ok2 else (False, None)
+            got[fnum] = (ok1, cont, ok2, arr, ok3, arr2)
         if not spec["list_first"]:
             ok, listing = guarded(lambda: list(ds.features_basin), "features_basin")
         # second listing must agree with the first one
@@ -839,8 +842,14 @@ def _run_mode(spec, rec, mode, M, paths, real, srv, gcls):
         return
     # ---- data / availability
     for fnum in sorted(got):
-        ok1, cont, ok2, arr = got[fnum]
+        ok1, cont, ok2, arr, ok3, arr2 = got[fnum]
         may = M.prov.get(fnum, {})
+        if ok3 and arr2 is not None and arr2 not in may:
+            why = _classify(spec, mode, fnum, arr2)
+            rec.fail(_sig(why, "data-second-read", mode),
+                     f"second read of {fname(fnum)} = {list(arr2)} (first read: "
+                     f"{'KeyError' if arr is None else list(arr)}; entry opened as "
+                     f"{mode}); admissible: {[list(a) for a in sorted(may)][:4]}")
         must = any(may.values())
         depth, via = M.must_info.get(fnum, (0, "innate"))
         pathcls = ("innate" if fnum in M.innate(0) else
